@@ -18,7 +18,7 @@ MIX = {
     "C14": [("hostile", 60, 2000, 200), ("normal", 20, 500, 200)],
     "C15": [("retained", 50, 1500, 220), ("normal", 20, 500, 220), ("session", 10, 300, 200)],
     "C16": [("will", 50, 1500, 200), ("normal", 20, 500, 220)],
-    "C17": [("shared", 60, 1800, 220), ("session", 10, 300, 200), ("window", 10, 200, 150)],
+    "C17": [("shared", 45, 1300, 220), ("group", 30, 900, 200), ("session", 8, 250, 200), ("window", 7, 150, 150)],
     "C19": [("normal", 30, 900, 200), ("hostile", 30, 900, 160), ("will", 15, 300, 200)],
 }
 
